@@ -12,7 +12,7 @@ import ast
 from ..astutil import calls_in, call_tail, dotted, src, walk_shallow
 from ..genekernel import chrom_parent, chunk_parent, gene_interp, mk_feature, mk_transcript
 from ..interp import ClassTok, Obj, Opaque, Raised, Uninterpretable
-from ..lockernel import blocks_of, is_empty_obj, run, strand_of, strands
+from ..lockernel import blocks_of, is_empty_obj, positions, run, strand_of, strands
 from ..model import AnalysisError
 from ..par import pmap
 from .c01 import enum_positions
@@ -310,6 +310,46 @@ def _tx_case(repo, it, S, spec):
     k, v = run(it, repo.fn("gene.interval:AbstractFeatureInterval.chromosome_location"), [], {}, part)
     if k != "ok" or sorted(blocks_of(v)) != sorted(exons) or strand_of(v).name != sn:
         out.append(("chromosome_location", f"{desc}: chromosome_location of the chunk-built twin -> {k}:{blocks_of(v) if k == 'ok' else v}", "gene.interval:AbstractFeatureInterval.chromosome_location"))
+    # the block list accessor is a chromosome-level answer as well
+    if repo.has_fn("gene.interval:AbstractFeatureInterval.blocks"):
+        fb = repo.fn("gene.interval:AbstractFeatureInterval.blocks")
+        n += 1
+        show_b = lambda kv: (kv[0], [blocks_of(b_)[0] for b_ in kv[1]] if kv[0] == "ok" else kv[1])  # noqa: E731
+        a_, b_ = show_b(run(it, fb, [], {}, whole)), show_b(run(it, fb, [], {}, part))
+        if a_ != b_:
+            out.append(("blocks", f"{desc}: .blocks is {b_[0]}:{b_[1]} on the chunk-built twin and {a_[0]}:{a_[1]} on the chromosome-built twin", fb.qual))
+    if kind.startswith("ctx"):
+        # the UTRs of the chunk view are the chromosome UTRs restricted to the chunk (documented: answered in chunk coordinates);
+        # asked as well of a transcript whose CDS covers all of it (both UTRs are the EmptyLocation on either twin)
+        pairs_ = [("", whole, part)]
+        try:
+            ffr = [F[{0: "ZERO", 1: "ONE", 2: "TWO"}[x]] for x in consistent_frames(list(exons), sn, 0)]
+            pairs_.append((" [CDS = all exons]", mk_transcript(it, exons, S[sn], cds=list(exons), frames=ffr, parent_or_seq_chunk_parent=pc),
+                           mk_transcript(it, exons, S[sn], cds=list(exons), frames=ffr, parent_or_seq_chunk_parent=pk)))
+        except Raised:
+            pass
+        all_in = all(cs <= s_ and e_ <= ce for s_, e_ in exons)
+        for tag_, w_, p_ in pairs_:
+            for m in ("get_5p_interval", "get_3p_interval"):
+                if not repo.has_fn(f"{cls}.{m}"):
+                    continue
+                fu = repo.fn(f"{cls}.{m}")
+                kw_, vw_ = run(it, fu, [], {}, w_)
+                if kw_ != "ok":
+                    continue
+                n += 1
+                kp_, vp_ = run(it, fu, [], {}, p_)
+                wantu = sorted(x for x in positions(vw_) if cs <= x < ce) if not is_empty_obj(vw_) else []
+                if kp_ != "ok":
+                    if all_in or vp_ in ("AttributeError", "IndexError", "KeyError", "TypeError", "RecursionError"):
+                        out.append((m + " on a chunk", f"{desc}{tag_}: {m}() raises {vp_} on the chunk-built twin; the chromosome-built twin answers "
+                                    f"{'EmptyLocation' if is_empty_obj(vw_) else blocks_of(vw_)}", fu.qual))
+                    continue
+                gotu = sorted(to_chrom(x) for x in positions(vp_)) if not is_empty_obj(vp_) else []
+                if gotu != wantu or (all_in and is_empty_obj(vp_) != is_empty_obj(vw_)):
+                    out.append((m + " on a chunk", f"{desc}{tag_}: {m}() on the chunk-built twin covers chromosome bases {gotu}"
+                                f"{' (EmptyLocation)' if is_empty_obj(vp_) else ''}; the chromosome-built twin's answer restricted to the chunk is {wantu}"
+                                f"{' (EmptyLocation)' if is_empty_obj(vw_) else ''}", fu.qual))
     # moving an existing object onto the chunk (and the chunk-built one back onto the chromosome) gives the twin built there
     fmv = repo.fn("gene.interval:AbstractInterval.liftover_to_parent_or_seq_chunk_parent")
     for what, src_obj, target, twin in (("chromosome-built object moved onto the chunk", whole, pk, part), ("chunk-built object moved onto the chromosome", part, pc, whole)):
